@@ -1002,10 +1002,10 @@ class NF:
             return self._mkcall(qual, args, kws)
         if isinstance(node, ast.FunctionDef) and self.inline_calls and depth < self.inline_depth and qual not in self.no_inline:
             node._module = mi
-            r = self._inline(node, f"{mi.name}.{node.name}", e, sc, at, depth)
+            r = self._inline(node, self.repo.canonical(f"{mi.name}.{node.name}", node), e, sc, at, depth)
             if r is not None:
                 return r
-        q = f"{mi.name}.{node.name}" if hasattr(node, "name") else qual
+        q = self.repo.canonical(f"{mi.name}.{node.name}", node) if hasattr(node, "name") else qual
         fields = self._record_fields(node)
         if fields is not None and "**" not in kws and not any(isinstance(a_, ast.Starred) for a_ in e.args) and len(args) + len(kws) <= len(fields) and set(kws) <= set(fields):
             # construction of a plain record (NamedTuple / dataclass / namedtuple(...)): field reads project the constructor arguments
